@@ -58,7 +58,7 @@ impl<'tcx> Interp<'tcx> {
 
     pub fn read_ptr(&self, st: &State, p: &Ptr) -> Val {
         if p.frame == STATICS {
-            let tmp = State { frames: vec![FrameSt { locals: self.statics.clone(), vers: vec![], bdefs: vec![], origin: vec![], discr: vec![] }], atoms: vec![], rng_count: 0 };
+            let tmp = State { frames: vec![FrameSt { locals: self.statics.clone(), vers: vec![], bdefs: vec![], origin: vec![], discr: vec![], callres: vec![] }], atoms: vec![], rng_count: 0, facts: Rc::new(Default::default()) };
             return tmp.read(&Ptr { frame: 0, local: p.local, proj: p.proj.clone() });
         }
         st.read(p)
@@ -813,6 +813,23 @@ impl<'tcx> Interp<'tcx> {
         }
     }
 
+    /// a branch condition refined local `l`: if it holds a tracked call result, refine the path fact too
+    fn refine_fact(&mut self, st: &mut State, fi: usize, l: u32, r: &IntV) {
+        if st.frames[fi].callres.is_empty() {
+            return;
+        }
+        let ver = st.frames[fi].vers[l as usize];
+        let key = st.frames[fi].callres.iter().find(|e| e.0 == l && e.1 == ver).map(|e| e.2.clone());
+        if let Some(k) = key {
+            if let Some(old) = st.facts.get(&k).cloned() {
+                let n = (old.0.max(r.lo), old.1.min(r.hi));
+                if n != old {
+                    Rc::make_mut(&mut st.facts).insert(k, n);
+                }
+            }
+        }
+    }
+
     fn assume_cmp(&mut self, st: &mut State, op: Cmp, a: &Src, b: &Src) -> bool {
         let (Some((av, al)), Some((bv, bl))) = (self.src_val(st, a), self.src_val(st, b)) else { return true };
         let Some((ra, rb)) = ops::refine(op, &av, &bv) else { return false };
@@ -826,6 +843,7 @@ impl<'tcx> Interp<'tcx> {
             st.atoms = at.itv;
             if let Some(l) = l {
                 st.frames[fi].locals[l as usize] = Val::Int(r.clone());
+                self.refine_fact(st, fi, l, &r);
                 // write the refinement back to the place the temp was loaded from (transitively:
                 // `_5 = copy _3; _3 = copy (*_2)`)
                 let mut cur_l = l;
@@ -847,6 +865,7 @@ impl<'tcx> Interp<'tcx> {
                     }
                     if ptr.proj.is_empty() && ptr.frame as usize == fi {
                         cur_l = ptr.local;
+                        self.refine_fact(st, fi, cur_l, &r);
                     } else {
                         break;
                     }
